@@ -14,11 +14,11 @@ mod c13_rd;
 mod c13_coq;
 
 const HEADER: &str = r#"From ZV.Common Require Import Base Run.
-From ZV.C13 Require Import Model.
+From ZV.C13 Require Import Model ModelRun.
 Open Scope N_scope.
 Definition case_t : Type := N * N * list Z * list N * option (list Z).
 Definition ok (c : case_t) : bool :=
-  let '(op, s, ints, bytes, expect) := c in eqb_olz (run_case op s ints bytes) expect.
+  let '(op, s, ints, bytes, expect) := c in eqb_olz (run_case2 op s ints bytes) expect.
 "#;
 
 const STRATS: [(VarIntStrategy, &str); 7] = [
